@@ -437,7 +437,7 @@ def c03_failures(rec, obs):
         return out          # not valid one at a time on the real code: outside C03
     bat = obs.get('bat', {})
     if not bat.get('ok'):
-        cls = 'opt-rejected' if bat.get('stage') == 'simulate' else 'opt-exec-failed'
+        cls = 'opt-rejected' if bat.get('stage') in ('simulate', 'generate') else 'opt-exec-failed'
         out.append((cls, bat.get('error')))
     else:
         if not obs.get('bat_sig_eq') or not obs.get('bat_diff_empty'):
@@ -564,6 +564,11 @@ def abstract_fresh_vs_real(spec_fresh, fresh_proj, names):
     return out
 
 
+GENERATION_ERRORS = ('AttributeError', 'KeyError', 'TypeError', 'IndexError', 'ValueError',
+                     'FieldDoesNotExist', 'DatabaseStateError', 'MissingSignatureError',
+                     'AssertionError', 'NameError', 'LookupError')
+
+
 def c01_failures(rec, obs):
     out = []
     if not obs.get('oracle_available') or obs.get('sig_vs_models_mismatch'):
@@ -576,6 +581,10 @@ def c01_failures(rec, obs):
             if run.get('stage') in ('execute',) or (
                     which == 'evo' and (run.get('error') or '').startswith('EvolutionExecutionError')):
                 out.append(('accepted-evolution-failed-to-execute', which, run.get('error'), []))
+            elif run.get('stage') == 'generate' or (
+                    which == 'evo' and (run.get('error') or '').split(':')[0] in GENERATION_ERRORS):
+                out.append(('accepted-evolution-failed-to-generate-sql', which, run.get('error'),
+                            [(run.get('error') or '').split(':')[0]]))
             continue
         diff = obs.get('fresh_diff_' + which)
         if diff:
